@@ -141,8 +141,16 @@ def main():
         try:
             ok_d, log_d = lib.lake_build(["pvdriver"])
             if not ok_d:
-                ctx.driver_ok = False
                 ctx.tie_broken("build-driver", log_d[-1500:])
+                if os.path.exists(lib.LASTGOOD):
+                    # the model no longer builds against the source (e.g. a regenerated constant disappeared): the last driver
+                    # that did build still is the published model the oracle compares with, and shows where model and code part
+                    lib.USE_LASTGOOD[0] = True
+                    ctx.note("driver not buildable from the current tree: using the last good driver for the search")
+                else:
+                    ctx.driver_ok = False
+            else:
+                lib.remember_good_driver()
             equiv = dict(getattr(mod, "EQUIV", {}))     # T-C: {module: [theorem names]} generated kernel = model
             for m in getattr(mod, "EXTRA_PROPS", []):   # further files holding only property theorems (all are obligations)
                 names = lib.theorems_of(os.path.join(lib.LEAN, m.replace(".", "/") + ".lean"))
